@@ -351,3 +351,41 @@ def run_bodykeep(P, rep, rule="R-BODYKEEP"):
     if not bad:
         rep.ok(rule, "element vectors", "-", "%d uses of Vec<Box<dyn Renderable>> in parser/block code; none removes, replaces or reorders elements" % n)
     rep.count(rule + ".uses", n)
+
+
+# ---------------------------------------------------------------------------------------
+# R-KEEPVALS: every value of a `when` list is kept, in order
+
+def run_when_values(P, rep, rule="R-KEEPVALS"):
+    """case_block::parse_condition: every successfully parsed value reaches Vec::push before the next token is read or the
+    list is returned; nothing removes or reorders values afterwards (`when a, b` must test a and b, whatever their values)."""
+    from r_pair import return_blocks
+    fn = P.fn_by_key("liquid_lib::stdlib::blocks::case_block::parse_condition")
+    vals = [(bi, t) for bi, t in P.calls(fn) if t.get("f") and t["f"]["id"].rsplit("::", 1)[1] == "expect_value"]
+    # the value is put into the collection: push, or the `vec![v]` / collect forms
+    pushes = {bi for bi, t in P.calls(fn) if t.get("f") and (t["f"]["id"].rsplit("::", 1)[1] in ("push", "extend", "from_iter", "collect", "extend_one")
+                                                  or "into_vec" in t["f"]["id"].rsplit("::", 1)[1])}
+    resid = {bi for bi, t in P.calls(fn) if t.get("f") and t["f"]["id"].endswith("FromResidual::from_residual")}
+    heads = {bi for bi, t in P.calls(fn) if t.get("f") and t["f"]["id"].rsplit("::", 1)[1] in ("next", "expect_next", "expect_nothing")}
+    if not vals or not pushes:
+        rep.viol(rule, "parse_condition shape", P.where(fn), "expected expect_value / Vec::push calls, found %d / %d" % (len(vals), len(pushes)))
+        return
+    rets = set(return_blocks(fn))
+    for k, (bi, t) in enumerate(vals):
+        site = "parse_condition value#%d" % k
+        r = P.reach(fn, [t["t"]], stop=pushes | resid)
+        lost = sorted((r & rets) | (r & heads))
+        if lost:
+            rep.viol(rule, site, P.where(fn, t["line"]),
+                     "a parsed `when` value can be dropped: a path reaches %s without Vec::push" % ("the return" if r & rets else "the next token read"))
+        else:
+            rep.ok(rule, site, P.where(fn, t["line"]), "every success path pushes the value before reading on / returning")
+    bad = []
+    for bi, t in P.calls(fn):
+        f = t.get("f")
+        if f and t["args"]:
+            ol = op_local(t["args"][0])
+            if ol and "Vec<liquid_core::runtime::expression::Expression>" in P.local_ty(fn, ol[0]) and f["id"].rsplit("::", 1)[1] in BODY_SHRINK + ("contains",):
+                bad.append((t["line"], f["id"].rsplit("::", 1)[1]))
+    for line, nm in bad:
+        rep.viol(rule, "parse_condition %s" % nm, P.where(fn, line), "`%s` on the list of `when` values: values are compared/removed at parse time" % nm)
